@@ -21,6 +21,7 @@ import json
 import os
 import random
 import re
+import time
 import warnings
 import zlib
 from concurrent.futures import ThreadPoolExecutor
@@ -390,8 +391,8 @@ def export_netlist(prog, cls, kind, bdir):
 # ------------------------------------------------------------------------------------------------
 # cases: every finished program of the builder dump
 def _case_worker(job):
-    path, lo, hi, stims, sim_mod, sim_res, pick_mod, pick_res = job
-    out = {"n": 0, "n_err": 0, "n_sim": 0, "n_buf": 0, "n_rej": 0, "mism": [], "fps": [], "sample": None, "picked": [], "ops": {}}
+    path, lo, hi, stims, sim_mod, sim_res = job
+    out = {"n": 0, "n_err": 0, "n_sim": 0, "n_buf": 0, "n_rej": 0, "mism": [], "fps": [], "sample": None, "ops": {}}
     bench = None
     pending = 0
 
@@ -438,8 +439,6 @@ def _case_worker(job):
                 out["sample"] = {"program": r, "len": want[0], "direction": want[1], "invert": list(want[2]), "wires": src,
                                  "buffer": exp["acc"][-1]["kind"] + "/" + exp["acc"][-1]["bdir"],
                                  "expected <<port.o, port.oe, i>> per step": [list(x) for x in exp["acc"][-1]["obs"][:4]]}
-            if pick_mod and zlib.crc32(r.encode()) % pick_mod == pick_res:
-                out["picked"].append([_op(o) for o in prog])
             acc = {(a["kind"], a["bdir"]): a for a in exp["acc"]}
             # simulated: every program of at most 3 operations, and a seeded 1-in-sim_mod sample of the longer ones
             sim_here = sim_mod and (len(prog) <= 3 or sim_mod == 1 or zlib.crc32(r.encode()) % sim_mod == sim_res)
@@ -471,20 +470,16 @@ def _case_worker(job):
     return out
 
 
-def replay_cases(ctx, stage, r, dump, stims, sim_mod, pick=0):
-    """Replay every finished program of a builder dump on the real code."""
+def case_jobs(ctx, stage, r, dump, stims, sim_mod):
     ctx.require_actions(r, ["PushLeaf", "DoSlice", "DoIndex", "DoInvert", "DoConcat"], stage)
-    path = dump + ".dump"
-    pick_res = ctx.rng.randrange(pick) if pick else 0
     sim_res = ctx.rng.randrange(sim_mod) if sim_mod else 0
-    res = pmap(_case_worker, [(path, lo, hi, stims, sim_mod, sim_res, pick, pick_res)
-                              for lo, hi in expr_replay.split_dump(path, 64)])
-    os.unlink(path)
+    return [(dump + ".dump", lo, hi, stims, sim_mod, sim_res) for lo, hi in expr_replay.split_dump(dump + ".dump", 48)]
+
+
+def collect_cases(ctx, stage, res, sim_mod):
     tot = {k: sum(x[k] for x in res) for k in ("n", "n_err", "n_sim", "n_buf", "n_rej", "n_mism")}
     ops = {}
-    picked = []
     for x in res:
-        picked.extend(x["picked"])
         for k, v in x["ops"].items():
             ops[k] = ops.get(k, 0) + v
         for fp in x["fps"]:
@@ -497,12 +492,10 @@ def replay_cases(ctx, stage, r, dump, stims, sim_mod, pick=0):
     if tot["n"] == 0 or (sim_mod and tot["n_buf"] == 0):
         raise MachineryError("vacuous replay in stage %s: %r" % (stage, tot))
     ctx.cov["stages"]["replay/" + stage] = {"programs": tot["n"], "refused_sums": tot["n_err"], "programs_simulated": tot["n_sim"],
-                                            "buffers_simulated": tot["n_buf"], "buffers_refused": tot["n_rej"],
-                                            "by_last_op": ops, "simulated": "all programs of <= 3 operations" +
-                                            ("" if sim_mod == 1 else ", 1 in %d of the longer ones" % sim_mod) if sim_mod else "none"}
+                                            "buffers_simulated": tot["n_buf"], "buffers_refused": tot["n_rej"], "by_last_op": ops,
+                                            "simulated": ("all programs of <= 3 operations" +
+                                                          ("" if sim_mod == 1 else ", 1 in %d of the longer ones" % sim_mod)) if sim_mod else "none"}
     ctx.cov["traces_validated_against_impl"] += tot["n"] + tot["n_buf"]
-    picked.sort(key=render)
-    return picked
 
 
 def report(ctx, m):
@@ -551,15 +544,20 @@ def _net_job(job):
     return export_netlist(prog, cls, kind, bdir)
 
 
-def wide_programs(rng, n):
-    """A few ports beyond the builder's bounds (more leaves, wider, deeper) for the random stage."""
+def _any_job(j):
+    return {"tour": _tour_job, "random": _random_job, "net": _net_job, "case": _case_worker}[j[0].split(":")[0]](j[1])
+
+
+def gen_programs(rng, n, maxw=9, maxleaves=4):
+    """Seeded port-building programs for the code -> spec stages, also beyond the builder's bounds (more leaves, wider,
+    deeper); IoBufTrace evaluates any program."""
     out = []
     for _ in range(n):
-        nl = rng.randint(1, 4)
+        nl = rng.randint(1, maxleaves)
         dirs = rng.choice([["i"], ["o"], ["io"], ["i", "io"], ["o", "io"]])
         prog = []
         for j in range(nl):
-            w = rng.randint(0, 9)
+            w = rng.randint(0, maxw)
             prog.append({"op": "leaf", "dir": rng.choice(dirs), "w": w, "form": "seq", "inv": [rng.random() < .5 for _ in range(w)]})
             cur = w
             for _ in range(rng.randint(0, 2)):
@@ -582,8 +580,9 @@ def wide_programs(rng, n):
     return out
 
 
-def judge(ctx, items, metas, stage):
-    verdicts = tracecheck.validate(ctx, "IoBufTrace", items, stage, cfg=CFG_TRACE, batch_size=3000)
+def judge(ctx, items, metas, stage, extra=()):
+    """Verdicts of IoBufTrace for items (+ extra items that are judged but never reported)."""
+    verdicts = tracecheck.validate(ctx, "IoBufTrace", list(items) + list(extra), stage, cfg=CFG_TRACE, batch_size=6000)
     for v, it, me in zip(verdicts, items, metas):
         if v[0] == "REJ":
             step, clause = v[1], v[2]
@@ -613,15 +612,15 @@ def run(ctx):
     # ---------------- mc: all TLC runs of the models, concurrently ------------------------------------------------
     base = dict(mutant="", depth=2, bools="FALSE", sim="TRUE", extra="")
     if th:
-        builders = [("cases-w2", dict(base, leafw="0,1,2", k=2), 4, 40),
-                    ("cases-w3", dict(base, leafw="0,1,2,3", k=1, sim="FALSE", bools="TRUE", extra="INVARIANT ExpIsEval"), 0, 0),
-                    ("cases-w3-sim", dict(base, leafw="0,3", k=1), 2, 0)]
+        builders = [("cases-w2", dict(base, leafw="0,1,2", k=2), 4),
+                    ("cases-w3", dict(base, leafw="0,1,2,3", k=1, sim="FALSE", bools="TRUE", extra="INVARIANT ExpIsEval"), 0),
+                    ("cases-w3-sim", dict(base, leafw="0,3", k=1), 2)]
     else:
-        builders = [("cases-w2", dict(base, leafw="0,1,2", k=0, bools="TRUE"), 4, 8),
-                    ("cases-k1", dict(base, leafw="2", k=1, sim="FALSE", extra="INVARIANT ExpIsEval"), 0, 0)]
+        builders = [("cases-w2", dict(base, leafw="0,1,2", k=0, bools="TRUE"), 6),
+                    ("cases-k1", dict(base, leafw="2", k=1, sim="FALSE", extra="INVARIANT ExpIsEval"), 0)]
     tour_ws = (1, 2) if th else (1,)
     jobs = [("IoBufCases", "mc/" + name, CFG_CASES.format(**inst), None, 6,
-             ("-coverage", "1", "-dump", os.path.join(ctx.tmp, name)), 1) for name, inst, _, _ in builders]
+             ("-coverage", "1", "-dump", os.path.join(ctx.tmp, name)), 1) for name, inst, _ in builders]
     jobs += [("IoBufFF", "mc/ff-w%d" % w, CFG_FF.format(mutant="", w=w), None, 2,
               ("-coverage", "1") + (("-dump", "dot,actionlabels", os.path.join(ctx.tmp, "ffg_%d" % w)) if w in tour_ws else ()), 1)
              for w in ((1, 2, 3) if th else (1, 2))]
@@ -644,12 +643,6 @@ def run(ctx):
                 raise MachineryError("vacuous model run %s: action Tick never taken" % j[1])
             ctx.cov["stages"][j[1]]["actions"] = {"Tick": int(m.group(2))}
 
-    # ---------------- cases: every finished program on the real code (spec -> code) ------------------------------
-    picked = []
-    for name, inst, sim_mod, pick in builders:
-        picked += replay_cases(ctx, name, results["mc/" + name], os.path.join(ctx.tmp, name), stims, sim_mod, pick)
-    ctx.rng.shuffle(picked)
-
     # ---------------- tours: every edge of the FFBuffer machine on the real FFBuffer -------------------------
     items, metas = [], []
     tour_jobs = []
@@ -665,67 +658,82 @@ def run(ctx):
             pdir = s0["bdir"] if n % 2 else "io"
             tour_jobs.append((tuple(s0["inv"]), s0["bdir"], pdir, w, steps))
         os.unlink(dot + ".dot")
-    for job, it in zip(tour_jobs, pmap(_tour_job, tour_jobs, chunksize=4)):
-        items.append(it)
-        metas.append({"driver": "tour", "kind": "ff", "job": list(job[:4]) + [[list(s) for s in job[4]]]})
-        ctx.case(("tour", job), nontrivial=len(job[4]) > 2)
-
-    # ---------------- random: long runs on sampled and wider ports -------------------------------------------
-    progs = picked[:(400 if th else 60)] + wide_programs(ctx.rng, 150 if th else 30)
+    # ---------------- random: long runs on sampled and wider ports; netlist: real ports ---------------------------
+    progs = gen_programs(ctx.rng, 400 if th else 40, 3, 3) + gen_programs(ctx.rng, 150 if th else 20)
     rjobs = []
     for prog in progs:
         for kind in ("comb", "ff", "ffsync"):
             for bdir in ("i", "o", "io"):
                 rjobs.append((prog, kind, bdir, 60 if th else 30, ctx.rng.getrandbits(48)))
-    n_live = 0
-    for job, it in zip(rjobs, pmap(_random_job, rjobs, chunksize=8)):
-        items.append(it)
-        metas.append({"driver": "random", "kind": job[1], "n": job[3], "seed": job[4]})
-        n_live += bool(it["steps"])
-        ctx.case(("rand", render(job[0]), job[1], job[2]), nontrivial=bool(it["steps"]) and sum(_leaf_widths(job[0])) > 0)
-    verdicts = judge(ctx, items, metas, "sim")
-    ctx.cov["stages"]["sim/validate"].update({"tour_traces": len(tour_jobs), "random_traces": len(rjobs), "random_traces_simulated": n_live})
-    good = next((it for it, v in zip(items, verdicts) if v[0] == "ACC" and len(it["steps"]) > 8 and it["kind"] == "ff"
-                 and it["bdir"] == "io" and any(s[7] > 0 for s in it["steps"][4:])), None)
-    if good is not None:
-        ctx.sample({"program": render(good["prog"]), "buffer": "ff/io", "first_steps <<ei,eo,o,oe,leaf.i,leaf.o,leaf.oe,i>>": good["steps"][:5]})
-
-    # ---------------- netlist: real ports -----------------------------------------------------------------------
-    nprogs = picked[:(1500 if th else 120)] + [p for p in wide_programs(ctx.rng, 60 if th else 20)]
+    nprogs = gen_programs(ctx.rng, 1500 if th else 80, 3, 3) + gen_programs(ctx.rng, 60 if th else 20)
     njobs = [(prog, cls, kind, bdir) for prog in nprogs for cls in ("se", "diff") for kind, bdir in COMBOS]
-    nitems = pmap(_net_job, njobs, chunksize=8)
-    nmetas = [{"driver": "netlist", "kind": j[2]} for j in njobs]
-    for j, it in zip(njobs, nitems):
-        ctx.case(("net", render(j[0]), j[1], j[2], j[3]), nontrivial=bool(it["cells"]))
-    nverd = judge(ctx, nitems, nmetas, "netlist")
-    ctx.cov["stages"]["netlist/validate"].update({"netlists": sum(1 for it in nitems if it["cells"]),
-                                                  "refused": sum(1 for it in nitems if it["raised"])})
-    ngood = next((it for it, v in zip(nitems, nverd) if v[0] == "ACC" and it["cls"] == "diff" and it["bdir"] == "io"
-                  and len(it["top_o"]) >= 2 and it["kind"] == "comb"), None)
-    if ngood is not None:
-        ctx.sample({"program": render(ngood["prog"]), "netlist cells (kind, op/dir, pads)":
-                    [(c["k"], c["op"] or c["dir"], c["port"]) for c in ngood["cells"]]})
+    t0 = time.time()
+    alljobs = [("tour", j) for j in tour_jobs] + [("random", j) for j in rjobs] + [("net", j) for j in njobs]
+    # cases (spec -> code): every finished program of every builder dump, in the same process pool
+    cjobs = []
+    for name, inst, sim_mod in builders:
+        cjobs += [("case:" + name, j) for j in case_jobs(ctx, name, results["mc/" + name], os.path.join(ctx.tmp, name), stims, sim_mod)]
+    ctx.rng.shuffle(alljobs)
+    both = cjobs + alljobs
+    order = sorted(range(len(both)), key=lambda n: (n % 7, n))           # interleave long and short jobs
+    out = pmap(_any_job, [both[n] for n in order], chunksize=2)
+    byidx = dict(zip(order, out))
+    for name, inst, sim_mod in builders:
+        collect_cases(ctx, name, [byidx[n] for n, j in enumerate(both) if j[0] == "case:" + name], sim_mod)
+        os.unlink(os.path.join(ctx.tmp, name) + ".dump")
+    for n, (what, job) in enumerate(both):
+        if what.startswith("case:"):
+            continue
+        it = byidx[n]
+        items.append(it)
+        if what == "tour":
+            metas.append({"driver": "tour", "kind": "ff", "job": list(job[:4]) + [[list(x) for x in job[4]]]})
+            ctx.case(("tour", job), nontrivial=len(job[4]) > 2)
+        elif what == "random":
+            metas.append({"driver": "random", "kind": job[1], "n": job[3], "seed": job[4]})
+            ctx.case(("rand", render(job[0]), job[1], job[2]), nontrivial=bool(it["steps"]) and sum(_leaf_widths(job[0])) > 0)
+        else:
+            metas.append({"driver": "netlist", "kind": job[2]})
+            ctx.case(("net", render(job[0]), job[1], job[2], job[3]), nontrivial=len(it["cells"]) > 1)
+    t1 = time.time()
 
-    # ---------------- binding demonstration: corrupted recordings must be rejected --------------------------------
-    if good is None or ngood is None:
-        raise MachineryError("no suitable accepted trace / netlist for the binding demonstration")
+    # ---------------- binding demonstration: corrupted recordings must be rejected (same TLC run) -----------------
+    gi = next((n for n, (it, me) in enumerate(zip(items, metas)) if it["k"] == "sim" and me["kind"] == "ff" and it["bdir"] == "io"
+               and len(it["steps"]) > 8 and any(x[3] for x in it["steps"][:-1])), None)
+    ni = next((n for n, (it, me) in enumerate(zip(items, metas)) if it["k"] == "net" and it["cls"] == "diff" and it["bdir"] == "io"
+               and me["kind"] == "comb" and len(it["top_o"]) >= 2), None)
+    if gi is None or ni is None:
+        raise MachineryError("no suitable trace / netlist for the binding demonstration")
+    good, ngood = items[gi], items[ni]
     bad1 = json.loads(json.dumps(good))
-    t = next(i for i, s in enumerate(bad1["steps"]) if i >= 4 and s[7] > 0)
-    bad1["steps"][t][7] ^= 1                                    # one wrong bit on i
+    for x in bad1["steps"]:
+        x[7] ^= 1                                               # one wrong bit on i
     bad2 = json.loads(json.dumps(good))
-    for s in bad2["steps"]:
-        s[6] = [v ^ 1 if v >= 0 else v for v in s[6]]           # an enable bit that does not follow oe
+    for x in bad2["steps"]:
+        x[6] = [v ^ 1 if v >= 0 else v for v in x[6]]           # an enable bit that does not follow oe
     bad3 = json.loads(json.dumps(ngood))
     iob = next(c for c in bad3["cells"] if c["k"] == "iob")
     iob["port"][0], iob["port"][1] = iob["port"][1], iob["port"][0]      # two pads swapped under the same mask
     bad4 = json.loads(json.dumps(ngood))
     bad4["cells"].append(dict(iob))                              # a second buffer cell on the same pads
     bad5 = dict(json.loads(json.dumps(good)), raised="ValueError", steps=[])
-    vs = tracecheck.validate(ctx, "IoBufTrace", [bad1, bad2, bad3, bad4, bad5], "binding-demo", cfg=CFG_TRACE, count_states=False)
-    ctx.cov["traces_validated_against_impl"] -= 5
-    if any(v[0] != "REJ" for v in vs):
+    demos = [bad1, bad2, bad3, bad4, bad5]
+    verdicts = judge(ctx, items, metas, "impl", demos)
+    ctx.cov["traces_validated_against_impl"] -= len(demos)
+    vs = verdicts[len(items):]
+    if verdicts[gi][0] == "ACC" and verdicts[ni][0] == "ACC" and any(v[0] != "REJ" for v in vs):
         raise MachineryError("binding demo: corrupted items were accepted: %r" % (vs,))
-    ctx.cov["stages"]["binding-demo/validate"]["corrupted_rejected"] = [list(map(str, v)) for v in vs]
+    ctx.cov["stages"]["impl/validate"].update({
+        "record_wall_s": round(t1 - t0, 1), "validate_wall_s": round(time.time() - t1, 1),
+        "tour_traces": len(tour_jobs), "random_traces": len(rjobs),
+        "random_traces_simulated": sum(1 for it in items if it["k"] == "sim" and it["steps"]) - len(tour_jobs),
+        "netlists": sum(1 for it in items if it["k"] == "net" and it["cells"]),
+        "refused_constructions": sum(1 for it in items if it["raised"]),
+        "binding_demo_corrupted_rejected": [list(map(str, v)) for v in vs]})
+    ctx.sample({"program": render(good["prog"]), "buffer": "ff/io",
+                "first_steps <<ei,eo,o,oe,leaf.i,leaf.o,leaf.oe,i>>": good["steps"][:5]})
+    ctx.sample({"program": render(ngood["prog"]), "port class": "diff", "buffer": "comb/io",
+                "netlist cells (kind, op/dir, pads)": [(c["k"], c["op"] or c["dir"], c["port"]) for c in ngood["cells"]]})
 
     ctx.cov["exhaustive"] = True
     ctx.cov["rule"] = ("case = one finished port-building program (leaves of width in LeafW with every mask and direction, "
